@@ -903,6 +903,20 @@ def solid3(m):
     return out
 
 
+def uniform5(a):
+    """pixels whose 5x5 neighbourhood is one flat colour (all four channels within 4 levels)"""
+    h, w = a.shape[:2]
+    p = np.pad(a, ((2, 2), (2, 2), (0, 0)), mode='edge')
+    mx = a.copy()
+    mn = a.copy()
+    for dy in range(5):
+        for dx in range(5):
+            v = p[dy:dy + h, dx:dx + w]
+            mx = np.maximum(mx, v)
+            mn = np.minimum(mn, v)
+    return (mx.astype(np.int16) - mn.astype(np.int16)).max(axis=2) <= 4
+
+
 def rgba(resp):
     return np.asarray(resp.image().convert('RGBA'))
 
@@ -1176,6 +1190,9 @@ def judge_wms_map(ctx, probe, auth, r, ref, calls):
     jpeg_src = any(ctx.spec['leaves'][lf]['kind'] == 'cache_jpeg' for lf in allowed)
     # bilinear / bicubic resampling blends every layer's cell edges with what lies below: loose tolerance as well
     tol = JPEG_TOL if (out_jpeg or jpeg_src or ctx.spec['resampling'] != 'nearest') else PNG_TOL
+    # with bilinear resampling every cell edge is a ramp that mixes in whatever lies below (also below a removed layer):
+    # only the flat interior of cells is comparable
+    flat = uniform5(rarr) if ctx.spec['resampling'] != 'nearest' else None
     nkeep = 0
     for lf in allowed:
         # where the unrestricted response shows layer lf (all layers are opaque or absent per pixel) and lf as well as the
@@ -1189,6 +1206,8 @@ def judge_wms_map(ctx, probe, auth, r, ref, calls):
         m = (rcodes == code) & rvis
         if lossy:
             m = solid3(m)
+        if flat is not None:
+            m = m & flat
         gates = []
         if lf in oracles:
             m = m & oracles[lf].inside(d_keep)
